@@ -33,7 +33,7 @@ def profile(e4: bool = False) -> Dict:
         "ops": list(ops.C13_OPS) + list(ops.C14_EXTRA_OPS),
         "lengths": [6, 10, 16, 24, 30],
         "weights": {"compose": 2.5, "compose_tactics": 2.5, "quotient": 2.5, "quotient_tactics": 2.5, "elim_refine": 3.0, "elim_relax": 2.5,
-                    "tl_rename_variable": 2.0, "rename_variable": 1.5, "tl_simplify": 2.0, "vertices": 1.5, "merge": 1.2, "c_str": 0.3, "c_hash": 0.3,
+                    "tl_rename_variable": 2.0, "rename_variable": 1.5, "tl_simplify": 2.0, "vertices": 1.5, "plot_assumptions": 0.7, "plot_guarantees": 0.7, "merge": 1.2, "c_str": 0.3, "c_hash": 0.3,
                     "term_copy": 0.3, "tl_copy": 0.5, "copy": 0.7},
         "p_plots": 0.3,
         "p_logging": 0.3,
